@@ -120,8 +120,10 @@ class Model:
 
             undo_private_renames(self)
         if not os.environ.get("VERIF_NO_DESUGAR"):
-            from .flatten import desugar
+            from .flatten import desugar, expand_tables
 
+            if not os.environ.get("VERIF_NO_TABLES"):
+                expand_tables(self)
             desugar(self)
         if not os.environ.get("VERIF_NO_FLATTEN"):
             from .flatten import flatten_model
